@@ -80,12 +80,9 @@ func (e *c14env) gateErrorReported(f *flow.Func, cons string, src *c14source) {
 
 func c14Gate(e *c14env) {
 	c := e.c
-	for _, name := range []string{"insert", "remove", "findSubscribers"} {
-		f := fn(c, mq, "TopicManager", name)
-		if f == nil {
-			continue
-		}
-		cons := fname(mq, "TopicManager", name)
+	for _, name := range []string{"insert", "remove", "find"} {
+		f := e.role(name).f
+		cons := e.role(name).cons
 		src := e.levelSource(f, cons)
 		if src == nil {
 			continue
@@ -103,88 +100,124 @@ func c14Gate(e *c14env) {
 			}
 		}
 
-		// trie keys are validated levels or constants; the cached slice is not modified
+		// trie keys are validated levels or constants; the cached slice is not modified.
+		// Decided over the reach of f: a walk moved into a helper that receives the level slice
+		// (or one level) as a parameter is followed through the parameter binding.
 		keys, badKeys := 0, 0
 		var badAt ast.Node
-		levelVars := map[types.Object]bool{}
-		for _, rs := range c14ranges(f.Body) {
-			if c14obj(f, rs.X) == src.levels && rs.Value != nil {
-				if o := c14obj(f, rs.Value); o != nil {
-					levelVars[o] = true
+		bind := c14bindings(f, 3)
+		isLevels := func(g *flow.Func, o types.Object) bool { return c14denotes(bind, g, o, src.levels, 4) }
+		var isLevelElem func(g *flow.Func, x ast.Expr, depth int) bool
+		levelVarsOf := map[*flow.Func]map[types.Object]bool{}
+		levelVars := func(g *flow.Func) map[types.Object]bool {
+			if m, ok := levelVarsOf[g]; ok {
+				return m
+			}
+			m := map[types.Object]bool{}
+			levelVarsOf[g] = m
+			for _, l := range c14loops(g.Body) {
+				if rs, ok := l.(*ast.RangeStmt); ok && isLevels(g, c14obj(g, rs.X)) && rs.Value != nil {
+					if o := c14obj(g, rs.Value); o != nil {
+						m[o] = true
+					}
 				}
 			}
+			fromLevels := func(r ast.Expr) bool {
+				ix, isIx := ast.Unparen(r).(*ast.IndexExpr)
+				return isIx && isLevels(g, c14obj(g, ix.X))
+			}
+			ast.Inspect(g.Body, func(n ast.Node) bool {
+				if as, ok := n.(*ast.AssignStmt); ok && len(as.Lhs) == len(as.Rhs) {
+					for i, r := range as.Rhs {
+						if fromLevels(r) {
+							if o := c14obj(g, as.Lhs[i]); o != nil {
+								m[o] = true
+							}
+						}
+					}
+				}
+				return true
+			})
+			// a level variable must not be assigned anything else
+			ast.Inspect(g.Body, func(n ast.Node) bool {
+				if as, ok := n.(*ast.AssignStmt); ok && len(as.Lhs) == len(as.Rhs) {
+					for i, l := range as.Lhs {
+						if o := c14obj(g, l); o != nil && m[o] && !fromLevels(as.Rhs[i]) {
+							delete(m, o)
+						}
+					}
+				}
+				return true
+			})
+			return m
 		}
-		// l := levels[i]
-		ast.Inspect(f.Body, func(n ast.Node) bool {
-			if as, ok := n.(*ast.AssignStmt); ok && len(as.Lhs) == len(as.Rhs) {
-				for i, r := range as.Rhs {
-					if ix, isIx := ast.Unparen(r).(*ast.IndexExpr); isIx && c14obj(f, ix.X) == src.levels {
-						if o := c14obj(f, as.Lhs[i]); o != nil {
-							levelVars[o] = true
-						}
+		isLevelElem = func(g *flow.Func, x ast.Expr, depth int) bool {
+			x = ast.Unparen(x)
+			if ix, isIx := x.(*ast.IndexExpr); isIx && isLevels(g, c14obj(g, ix.X)) {
+				return true
+			}
+			o := c14obj(g, x)
+			if o == nil {
+				return false
+			}
+			if levelVars(g)[o] {
+				return true
+			}
+			// the key variable of a range over a children map: an existing key
+			for _, l := range c14loops(g.Body) {
+				if rs, ok := l.(*ast.RangeStmt); ok && rs.Key != nil && c14obj(g, rs.Key) == o {
+					if _, isNodes := c14fieldRecv(g, rs.X, e.nodesF); isNodes {
+						return true
 					}
 				}
 			}
-			return true
-		})
-		// a level variable must not be assigned anything else
-		ast.Inspect(f.Body, func(n ast.Node) bool {
-			if as, ok := n.(*ast.AssignStmt); ok && len(as.Lhs) == len(as.Rhs) {
-				for i, l := range as.Lhs {
-					if o := c14obj(f, l); o != nil && levelVars[o] {
-						if ix, isIx := ast.Unparen(as.Rhs[i]).(*ast.IndexExpr); !isIx || c14obj(f, ix.X) != src.levels {
-							delete(levelVars, o)
-						}
+			if bs := bind[o]; len(bs) > 0 && depth > 0 {
+				for _, bd := range bs {
+					if !isLevelElem(bd.in, bd.arg, depth-1) {
+						return false
 					}
 				}
+				return true
 			}
-			return true
-		})
-		ast.Inspect(f.Body, func(n ast.Node) bool {
-			switch t := n.(type) {
-			case *ast.IndexExpr:
-				if _, ok := c14fieldRecv(f, t.X, e.nodesF); !ok {
-					return true
-				}
-				keys++
-				ok := false
-				if _, isC := c14constStr(f, t.Index); isC {
-					ok = true
-				} else if o := c14obj(f, t.Index); o != nil && levelVars[o] {
-					ok = true
-				} else if ix, isIx := ast.Unparen(t.Index).(*ast.IndexExpr); isIx && c14obj(f, ix.X) == src.levels {
-					ok = true
-				}
-				if !ok {
-					badKeys++
-					badAt = t
-				}
-			case *ast.CallExpr:
-				if c14isBuiltin(f, t, "delete") && len(t.Args) == 2 {
-					if _, ok := c14fieldRecv(f, t.Args[0], e.nodesF); ok {
-						keys++
-						ok := false
-						if o := c14obj(f, t.Args[1]); o != nil && levelVars[o] {
-							ok = true
-						} else if ix, isIx := ast.Unparen(t.Args[1]).(*ast.IndexExpr); isIx && c14obj(f, ix.X) == src.levels {
-							ok = true
+			return false
+		}
+		for _, g := range reach(f, 3) {
+			g := g
+			if g != f && len(e.sourceCalls(g, g.Body, false)) > 0 {
+				continue // has its own validated levels (decided there)
+			}
+			ast.Inspect(g.Body, func(n ast.Node) bool {
+				switch t := n.(type) {
+				case *ast.IndexExpr:
+					if _, ok := c14fieldRecv(g, t.X, e.nodesF); !ok {
+						return true
+					}
+					keys++
+					if _, isC := c14constStr(g, t.Index); !isC && !isLevelElem(g, t.Index, 3) {
+						badKeys++
+						badAt = t
+					}
+				case *ast.CallExpr:
+					if c14isBuiltin(g, t, "delete") && len(t.Args) == 2 {
+						if _, ok := c14fieldRecv(g, t.Args[0], e.nodesF); ok {
+							keys++
+							if !isLevelElem(g, t.Args[1], 3) {
+								badKeys++
+								badAt = t
+							}
 						}
-						if !ok {
+					}
+				case *ast.AssignStmt:
+					for _, l := range t.Lhs {
+						if ix, ok := ast.Unparen(l).(*ast.IndexExpr); ok && isLevels(g, c14obj(g, ix.X)) {
 							badKeys++
 							badAt = t
 						}
 					}
 				}
-			case *ast.AssignStmt:
-				for _, l := range t.Lhs {
-					if ix, ok := ast.Unparen(l).(*ast.IndexExpr); ok && c14obj(f, ix.X) == src.levels {
-						badKeys++
-						badAt = t
-					}
-				}
-			}
-			return true
-		})
+				return true
+			})
+		}
 		if badKeys == 0 {
 			c.Discharge("R-C14-2", cons+"|trie keys are validated levels", pos(c, f.Body),
 				sprintf("%d child lookups/deletes keyed by an element of the validated level slice or a constant", keys))
@@ -195,28 +228,13 @@ func c14Gate(e *c14env) {
 		}
 	}
 
-	// getLevels delegates to the level cache
-	if f := fn(c, mq, "TopicManager", "getLevels"); f != nil {
-		cons := fname(mq, "TopicManager", "getLevels")
-		gets := callsTo(f, f.Body, false, "(*"+mq+".topicLevelManager).get")
-		ok := false
-		var rets []*ast.ReturnStmt
-		ast.Inspect(f.Body, func(n ast.Node) bool {
-			if r, isR := n.(*ast.ReturnStmt); isR {
-				rets = append(rets, r)
-			}
-			return true
-		})
-		if len(gets) == 1 && len(rets) == 1 && len(rets[0].Results) == 1 && ast.Unparen(rets[0].Results[0]) == ast.Expr(gets[0]) &&
-			len(gets[0].Args) == 1 && c14isParam(f, c14obj(f, gets[0].Args[0])) {
-			ok = true
+	// wrappers of the level cache (getLevels): by construction of the source role each one only
+	// returns a source's result for its own parameter
+	e.decls(func(f *flow.Func, fd *ast.FuncDecl) {
+		if o := e.funcObj(fd); o != nil && e.roles.sources[o] && o != e.roles.get.obj {
+			c.Discharge("R-C14-2", declName(e.pkg, fd)+"|delegates to the validating cache", pos(c, fd.Body), "every return hands back <level source>(<parameter>)")
 		}
-		if ok {
-			c.Discharge("R-C14-2", cons+"|delegates to the validating cache", pos(c, f.Body), "return levelMgr.get(topic)")
-		} else {
-			c.Undecide("R-C14-2", cons+"|delegates to the validating cache", pos(c, f.Body), "getLevels is no longer `return <cache>.get(<parameter>)`; the producer of level slices must be re-identified")
-		}
-	}
+	})
 
 	c14Cache(e)
 }
@@ -225,11 +243,8 @@ func c14Gate(e *c14env) {
 // only valid splits.
 func c14Cache(e *c14env) {
 	c := e.c
-	f := fn(c, mq, "topicLevelManager", "get")
-	if f == nil {
-		return
-	}
-	cons := fname(mq, "topicLevelManager", "get")
+	f := e.roles.get.f
+	cons := e.roles.get.cons
 	isCacheCall := func(g *flow.Func, call *ast.CallExpr) (string, bool) {
 		sel, ok := ast.Unparen(call.Fun).(*ast.SelectorExpr)
 		if !ok {
@@ -244,7 +259,7 @@ func c14Cache(e *c14env) {
 
 	var split *ast.CallExpr
 	for _, call := range calls(f.Body, false) {
-		if calleeIs(f, call, mq+".splitTopic") {
+		if fo, ok := f.Callee(call).(*types.Func); ok && fo == e.roles.split.obj {
 			if split != nil {
 				c.Undecide("R-C14-2", cons+"|cache filled only with valid splits", pos(c, call), "more than one splitTopic call")
 				return
@@ -426,7 +441,7 @@ func c14Prune(e *c14env) {
 		for _, d := range clientDeletes {
 			k := c14obj(f, d.Args[1])
 			var topicParam types.Object
-			for _, s := range callsTo(f, fd.Body, false, "(*"+mq+".TopicManager).getLevels", "(*"+mq+".topicLevelManager).get") {
+			for _, s := range e.sourceCalls(f, fd.Body, false) {
 				if len(s.Args) == 1 {
 					topicParam = c14obj(f, s.Args[0])
 				}
@@ -455,9 +470,54 @@ func c14Prune(e *c14env) {
 			return "ev:c14:def:" + childR[p] + ":" + c14varRender(f, o)
 		}
 		res := analyze(c, f, flow.Config{
+			Inline: inlineSamePkg(f),
 			Pure: func(call *ast.CallExpr, callee types.Object) bool {
 				fo, ok := callee.(*types.Func)
 				return ok && fo.Pkg() != nil && strings.HasSuffix(fo.Pkg().Path(), "/pkg/logger")
+			},
+			// an emptiness test moved into a helper (`child.isEmpty()`, `isEmpty(child)`): the
+			// helper's receiver / parameter is defined from the child expression at the call
+			OnCall: func(st *flow.State, call *ast.CallExpr, callee types.Object, d bool) {
+				fo, ok := callee.(*types.Func)
+				if !ok || fo.Pkg() != f.Pkg.Types {
+					return
+				}
+				hd := declOf(f.Pkg, fo)
+				if hd == nil {
+					return
+				}
+				bindTo := func(p *ast.Ident, arg ast.Expr) {
+					if p == nil || arg == nil {
+						return
+					}
+					o := f.Info.Defs[p]
+					if o == nil {
+						return
+					}
+					r := f.Render(ast.Unparen(arg))
+					for _, pr := range prunes {
+						if r == childR[pr] {
+							st.Set(defKey(pr, o), flow.True)
+						} else if st.Get(defKey(pr, o)) != flow.Unknown {
+							st.Set(defKey(pr, o), flow.False)
+						}
+					}
+				}
+				if hd.Recv != nil && len(hd.Recv.List) == 1 && len(hd.Recv.List[0].Names) == 1 {
+					bindTo(hd.Recv.List[0].Names[0], c14recvOf(f, call))
+				}
+				i := 0
+				for _, fld := range hd.Type.Params.List {
+					for _, nm := range fld.Names {
+						if i < len(call.Args) {
+							bindTo(nm, call.Args[i])
+						}
+						i++
+					}
+					if len(fld.Names) == 0 {
+						i++
+					}
+				}
 			},
 			OnBlock: func(st *flow.State, b *cfg.Block) {
 				if b.Stmt == nil || !loopsOf[b.Stmt] {
